@@ -6,6 +6,7 @@ package c12
 import (
 	"context"
 	"encoding/json"
+	"flag"
 	"fmt"
 	"io"
 	"os"
@@ -14,6 +15,7 @@ import (
 	"strings"
 	"sync"
 
+	"github.com/go-logr/logr"
 	"github.com/openkruise/rollouts/api/v1beta1"
 	batchcontext "github.com/openkruise/rollouts/pkg/controller/batchrelease/context"
 	"github.com/openkruise/rollouts/pkg/controller/batchrelease/control"
@@ -109,6 +111,14 @@ var (
 )
 
 func init() {
+	// the code under test logs every skipped pod; keep klog away from stderr (errors go there by default)
+	fs := flag.NewFlagSet("klog", flag.ContinueOnError)
+	klog.InitFlags(fs)
+	_ = fs.Set("logtostderr", "false")
+	_ = fs.Set("alsologtostderr", "false")
+	_ = fs.Set("stderrthreshold", "FATAL")
+	klog.SetOutput(io.Discard)
+	klog.SetLogger(logr.Discard()) // skips header formatting and runtime.Caller for the many InfoS calls per pod
 	_ = clientgoscheme.AddToScheme(scheme)
 	tmpl := func(image, pth string) corev1.PodTemplateSpec {
 		return corev1.PodTemplateSpec{
@@ -373,6 +383,8 @@ type result struct {
 	verdicts []verdict
 	writes1  int
 	outcome  string
+	// after: the stored pod states after the first pass (nil when it panicked)
+	after []podState
 }
 
 type world struct {
@@ -381,16 +393,22 @@ type world struct {
 	release *v1beta1.BatchRelease
 	cli     *recClient
 	names   []string
+	// pristine are the pods as generated (never handed to the code under test)
+	pristine []*corev1.Pod
+	// dirty: something was written to the store, it cannot be reused for another case over the same pods
+	dirty bool
 }
 
-func newWorld(c Case) *world {
-	w := &world{c: c, batches: parsePlan(c.Plan)}
-	w.release = &v1beta1.BatchRelease{Spec: v1beta1.BatchReleaseSpec{ReleasePlan: v1beta1.ReleasePlan{Batches: w.batches, RolloutID: curID}}}
-	objs := make([]client.Object, 0, len(c.Pods)+2)
+// newWorld builds the fake store holding the pods (and the two ReplicaSets when a pod is owned by one).
+func newWorld(pods []PodSpec) *world {
+	w := &world{}
+	objs := make([]client.Object, 0, len(pods)+2)
 	needRS := false
-	for i, p := range c.Pods {
-		objs = append(objs, mkPod(i, p))
-		w.names = append(w.names, "demo-"+strconv.Itoa(i))
+	for i, p := range pods {
+		pod := mkPod(i, p)
+		w.pristine = append(w.pristine, pod)
+		objs = append(objs, pod.DeepCopy())
+		w.names = append(w.names, pod.Name)
 		if strings.HasPrefix(p.Rev, "rs-") {
 			needRS = true
 		}
@@ -402,20 +420,60 @@ func newWorld(c Case) *world {
 	return w
 }
 
-// snapshot reads every pod back from the store.
-func (w *world) snapshot() ([]podState, []*corev1.Pod) {
+func (w *world) setCase(c Case) {
+	w.c = c
+	w.batches = parsePlan(c.Plan)
+	w.release = &v1beta1.BatchRelease{Spec: v1beta1.BatchReleaseSpec{ReleasePlan: v1beta1.ReleasePlan{Batches: w.batches, RolloutID: curID}}}
+	w.cli.writes = nil
+}
+
+// initial returns the pods as generated: their label state and fresh copies to hand to the code under test.
+func (w *world) initial() ([]podState, []*corev1.Pod) {
+	st := make([]podState, len(w.pristine))
+	pods := make([]*corev1.Pod, len(w.pristine))
+	for i, p := range w.pristine {
+		pods[i] = p.DeepCopy()
+		st[i] = podState{Exists: true, Labels: p.Labels}
+	}
+	return st, pods
+}
+
+// reread returns the stored state after writes: every pod named in the write log is read back from the store, the
+// others cannot have changed (every write of the code under test goes through the log) and are copied.
+func (w *world) reread(prev []podState, prevPods []*corev1.Pod) ([]podState, []*corev1.Pod) {
+	written := map[string]bool{}
+	for _, wr := range w.cli.writes {
+		written[wr.Name] = true
+	}
 	st := make([]podState, len(w.names))
-	pods := make([]*corev1.Pod, 0, len(w.names))
+	pods := make([]*corev1.Pod, len(w.names))
 	for i, n := range w.names {
+		if !written[n] {
+			st[i] = prev[i]
+			if prevPods[i] != nil {
+				pods[i] = prevPods[i].DeepCopy()
+			}
+			continue
+		}
 		pod := &corev1.Pod{}
 		if err := w.cli.Client.Get(context.Background(), types.NamespacedName{Namespace: ns, Name: n}, pod); err != nil {
 			st[i] = podState{Exists: false}
 			continue
 		}
 		st[i] = podState{Exists: true, Labels: pod.Labels}
-		pods = append(pods, pod)
+		pods[i] = pod
 	}
 	return st, pods
+}
+
+func present(pods []*corev1.Pod) []*corev1.Pod {
+	out := make([]*corev1.Pod, 0, len(pods))
+	for _, p := range pods {
+		if p != nil {
+			out = append(out, p)
+		}
+	}
+	return out
 }
 
 // buildContext derives the BatchContext the way the real callers do (partition-style CloneSet /
@@ -423,46 +481,56 @@ func (w *world) snapshot() ([]podState, []*corev1.Pod) {
 func (w *world) buildContext(pods []*corev1.Pod) *batchcontext.BatchContext {
 	c := w.c
 	replicas := int32(c.Replicas)
-	planned := int32(control.CalculateBatchReplicas(w.release, c.Replicas, c.CurrentBatch))
-	desiredUpdate := planned
-	desiredStable := replicas - desiredUpdate
 	bc := &batchcontext.BatchContext{
-		RolloutID: curID, CurrentBatch: int32(c.CurrentBatch), UpdateRevision: updateRevision,
-		Replicas: replicas, PlannedUpdatedReplicas: planned,
+		RolloutID: curID, CurrentBatch: int32(c.CurrentBatch), UpdateRevision: updateRevision, Replicas: replicas,
 		// the first three gates of IsBatchReady are made to pass so that its verdict is batchLabelSatisfied's
 		UpdatedReplicas: replicas + 100, UpdatedReadyReplicas: replicas + 100,
 		Pods: pods,
 	}
+	var nnu *int32
 	if c.Filter != "nil" {
-		nnu := int32(0)
+		// countAndUpdateNoNeedUpdateReplicas
+		n := int32(0)
 		for _, pod := range pods {
 			if !pod.DeletionTimestamp.IsZero() || !util.IsConsistentWithRevision(pod.GetLabels(), updateRevision) {
 				continue
 			}
 			if id, ok := pod.Labels[util.NoNeedUpdatePodLabel]; ok && id == curID {
-				nnu++
+				n++
 			}
 		}
-		bc.NoNeedUpdatedReplicas = &nnu
-		if nnu > 0 {
-			desiredUpdateNew := int32(control.CalculateBatchReplicas(w.release, int(replicas-nnu), c.CurrentBatch))
-			desiredStable = replicas - nnu - desiredUpdateNew
-			desiredUpdate = replicas - desiredStable
-		}
+		nnu = &n
 		switch c.Filter {
 		case "unordered":
 			bc.FilterFunc = labelpatch.FilterPodsForUnorderedUpdate
 		case "ordered":
-			desiredStable += nnu
-			desiredUpdate = replicas - desiredStable + nnu
 			bc.FilterFunc = labelpatch.FilterPodsForOrderedUpdate
 		default:
 			panic("c12: unknown filter " + c.Filter)
 		}
 	}
-	bc.DesiredUpdatedReplicas = desiredUpdate
-	bc.DesiredPartition = intstr.FromInt(int(desiredStable))
+	bc.NoNeedUpdatedReplicas = nnu
+	bc.PlannedUpdatedReplicas, bc.DesiredUpdatedReplicas, bc.DesiredPartition = deriveFields(w.release, c.Replicas, c.CurrentBatch, c.Filter, nnu)
 	return bc
+}
+
+// deriveFields mirrors the arithmetic of partitionstyle/{cloneset,statefulset}.CalculateBatchContext; selfCheckContext
+// compares it with the real functions over the whole configuration domain before anything is enumerated.
+func deriveFields(release *v1beta1.BatchRelease, replicasInt, cb int, filter string, nnu *int32) (planned, desiredUpdate int32, partition intstr.IntOrString) {
+	replicas := int32(replicasInt)
+	planned = int32(control.CalculateBatchReplicas(release, replicasInt, cb))
+	desiredUpdate = planned
+	desiredStable := replicas - desiredUpdate
+	if nnu != nil && *nnu > 0 {
+		desiredUpdateNew := int32(control.CalculateBatchReplicas(release, int(replicas-*nnu), cb))
+		desiredStable = replicas - *nnu - desiredUpdateNew
+		desiredUpdate = replicas - desiredStable
+	}
+	if filter == "ordered" && nnu != nil {
+		desiredStable += *nnu
+		desiredUpdate = replicas - desiredStable + *nnu
+	}
+	return planned, desiredUpdate, intstr.FromInt(int(desiredStable))
 }
 
 func shortSite(p *lib.Panic) string {
@@ -565,7 +633,7 @@ func (w *world) checkReady(stage string, st []podState, pods []*corev1.Pod, out 
 		fmt.Fprintf(trace, "  batchLabelSatisfied (%s): real=%v; target=%d, belonging pods=%d, live pods with the rollout-id but another revision=%d, with a batch-id that names no batch=%d\n",
 			stage, sat, target, strict, nonNew, garbage)
 	}
-	if sat && strict < target {
+	if sat && strict < target && nonNew+garbage > 0 {
 		cls := "non-new-revision-pod"
 		if strict+nonNew < target && strict+garbage >= target {
 			cls = "garbage-batch-id"
@@ -576,15 +644,20 @@ func (w *world) checkReady(stage string, st []podState, pods []*corev1.Pod, out 
 	}
 }
 
-func runCase(c Case, trace io.Writer) (res result) {
-	w := newWorld(c)
+// runCase executes one case. w may be a store left untouched by an earlier case over the same pods (nil: build one).
+func runCase(c Case, trace io.Writer, w *world) (res result, wOut *world) {
+	if w == nil || w.dirty {
+		w = newWorld(c.Pods)
+	}
+	wOut = w
+	w.setCase(c)
 	nB := len(c.Plan)
 	tr := func(format string, a ...interface{}) {
 		if trace != nil {
 			fmt.Fprintf(trace, format, a...)
 		}
 	}
-	before, pods1 := w.snapshot()
+	before, pods1 := w.initial()
 	inc := refIncrements(c.Plan, c.Replicas)
 	tr("case: family=%s plan=%v replicas=%d currentBatch=%d filter=%s rollout-id=%s update-revision=%s\n", c.Family, c.Plan, c.Replicas, c.CurrentBatch, c.Filter, curID, updateRevision)
 	tr("reference: pods each batch adds under the plan = %v\n", inc)
@@ -593,10 +666,10 @@ func runCase(c Case, trace io.Writer) (res result) {
 	}
 
 	// batchLabelSatisfied on the state before labelling (the patcher may fail or not have run yet)
-	w.checkReady("before labelling", before, pods1, &res.verdicts, trace)
+	w.checkReady("before labelling", before, present(pods1), &res.verdicts, trace)
 
 	// ---- pass 1
-	bc1 := w.buildContext(pods1)
+	bc1 := w.buildContext(present(pods1))
 	tr("pass 1: PatchPodBatchLabel(%s)\n", bc1.Log())
 	patcher := labelpatch.NewLabelPatcher(w.cli, klog.ObjectRef{Namespace: ns, Name: "release"}, w.batches)
 	var err1 error
@@ -606,23 +679,19 @@ func runCase(c Case, trace io.Writer) (res result) {
 			fmt.Sprintf("PatchPodBatchLabel panicked: %s (at %s)", p.Value, p.Site)})
 		res.outcome = "panic"
 		res.writes1 = len(w.cli.writes)
+		w.dirty = w.dirty || res.writes1 > 0
 		return
 	}
 	res.writes1 = len(w.cli.writes)
+	w.dirty = w.dirty || res.writes1 > 0
 	for _, wr := range w.cli.writes {
 		tr("  write: %s %s %s %s\n", wr.Op, wr.Name, wr.Patch, wr.Result)
 	}
 	tr("  returned: %v\n", err1)
-	after, pods2 := before, pods1
-	if res.writes1 > 0 {
-		after, pods2 = w.snapshot()
-	} else {
-		// nothing was written (every write goes through the log): the store is unchanged; hand fresh copies to pass 2
-		pods2 = make([]*corev1.Pod, len(pods1))
-		for i := range pods1 {
-			pods2[i] = pods1[i].DeepCopy()
-		}
-	}
+	// the pods handed to pass 1 (possibly reordered / touched by the code under test) are not reused
+	_, fresh := w.initial()
+	after, pods2 := w.reread(before, fresh)
+	res.after = after
 
 	// ---- oracles on pass 1
 	labelled, hashed := 0, 0
@@ -693,21 +762,23 @@ func runCase(c Case, trace io.Writer) (res result) {
 		}
 	}
 
-	w.checkReady("after labelling", after, pods2, &res.verdicts, trace)
+	w.checkReady("after labelling", after, present(pods2), &res.verdicts, trace)
 
 	// ---- pass 2 on the pods as a lister would now return them
 	w.cli.writes = nil
-	bc2 := w.buildContext(pods2)
+	bc2 := w.buildContext(present(pods2))
 	tr("pass 2: PatchPodBatchLabel(%s)\n", bc2.Log())
 	var err2 error
 	if p := lib.Catch(func() { err2 = patcher.PatchPodBatchLabel(bc2) }); p != nil {
+		w.dirty = w.dirty || len(w.cli.writes) > 0
 		tr("  PANIC %s at %s\n", p.Value, p.Site)
 		res.verdicts = append(res.verdicts, verdict{"C12/panic/" + shortSite(p) + "/second-pass",
 			fmt.Sprintf("second PatchPodBatchLabel panicked: %s (at %s)", p.Value, p.Site)})
 	} else {
 		tr("  returned: %v, writes: %d\n", err2, len(w.cli.writes))
 		if len(w.cli.writes) > 0 {
-			after2, _ := w.snapshot()
+			w.dirty = true
+			after2, _ := w.reread(after, pods2)
 			kind := "rewrite-same-value"
 			for i := range c.Pods {
 				if !sameState(after[i], after2[i]) {
@@ -770,8 +841,9 @@ func configs(plans [][]string, replicas []int, filter string) []config {
 	return out
 }
 
-func labelPairs(thorough bool) [][2]string {
-	if !thorough {
+// labelPairs: pre-existing (rollout-id class, batch-id) pairs; all=false keeps the ones that differ in kind.
+func labelPairs(all bool) [][2]string {
+	if !all {
 		return [][2]string{{"", ""}, {"cur", "1"}, {"cur", "2"}, {"cur", "3"}, {"cur", "0"}, {"cur", "-1"}, {"cur", "99"}, {"cur", "x"},
 			{"cur", ""}, {"foreign", "1"}, {"foreign", "x"}, {"", "1"}}
 	}
@@ -790,23 +862,35 @@ func families(thorough bool) []family {
 		{"1", "2"}, {"1", "3"}, {"50%", "100%"}, {"1", "1"}, {"0", "2"}, {"2", "1"},
 		{"1", "2", "3"}, {"20%", "50%", "100%"}, {"1", "50%", "100%"}, {"1", "3", "2"}, {"2", "1", "3"}, {"9", "9", "9"},
 	}
-	if thorough {
-		plansAll = append(plansAll, []string{"-1", "2"}, []string{"abc", "1"}, []string{"150%"}, []string{"1", "2", "2"}, []string{"34%", "67%", "100%"})
+	// the filter families use fewer plans in the quick tier
+	plansFilter := [][]string{
+		{"1"}, {"50%"}, {"100%"},
+		{"1", "2"}, {"50%", "100%"}, {"2", "1"}, {"0", "2"},
+		{"1", "2", "3"}, {"20%", "50%", "100%"}, {"1", "3", "2"},
 	}
 	plansFew := [][]string{{"1"}, {"1", "2"}, {"50%", "100%"}, {"1", "2", "3"}}
-	replAll := []int{0, 1, 2, 3, 4, 5, 6}
+	// replicas: the degenerate 0 comes last so that witnesses are natural
+	replAll := []int{1, 2, 3, 4, 6, 0}
 	replFew := []int{2, 3}
 	if thorough {
+		plansAll = append(plansAll, []string{"-1", "2"}, []string{"abc", "1"}, []string{"150%"}, []string{"1", "2", "2"}, []string{"34%", "67%", "100%"})
+		plansFilter = plansAll
+		replAll = []int{1, 2, 3, 4, 5, 6, 0}
 		replFew = []int{1, 3, 4}
 	}
 
 	// F1: pre-existing label values on live new-revision pods, next to a few pods that do not belong
-	var f1 []PodSpec
-	for _, l := range labelPairs(thorough) {
+	notBelonging := []PodSpec{{Rev: "cs-old"}, {Rev: "cs-old", ID: "cur", Batch: "1"}, {Rev: "cs-new", Term: true}, {Rev: "cs-new", Term: true, ID: "cur", Batch: "1"}}
+	var f1, f1b []PodSpec
+	for _, l := range labelPairs(false) {
 		f1 = append(f1, PodSpec{Rev: "cs-new", ID: l[0], Batch: l[1]})
 	}
-	f1 = append(f1, PodSpec{Rev: "cs-old"}, PodSpec{Rev: "cs-old", ID: "cur", Batch: "1"},
-		PodSpec{Rev: "cs-new", Term: true}, PodSpec{Rev: "cs-new", Term: true, ID: "cur", Batch: "1"})
+	f1 = append(f1, notBelonging...)
+	// F1b (thorough): the full {absent,cur,foreign} x {absent,"1","2","3","0","-1","99","x"} product of pre-labels
+	for _, l := range labelPairs(true) {
+		f1b = append(f1b, PodSpec{Rev: "cs-new", ID: l[0], Batch: l[1]})
+	}
+	f1b = append(f1b, notBelonging...)
 
 	// F2: owners / revisions / terminating
 	revs := []string{"cs-new", "cs-old", "cs-none", "rs-new", "rs-old", "rs-new-hashed", "rs-gone"}
@@ -846,19 +930,21 @@ func families(thorough bool) []family {
 	}
 	f4 = append(f4, PodSpec{Rev: "cs-old"}, PodSpec{Rev: "cs-new", Term: true})
 
-	fs := []family{
-		{name: "F1-labels", alphabet: f1, maxPods: 4, configs: configs(plansAll, replAll, "nil")},
+	if !thorough {
+		return []family{
+			{name: "F1-labels", alphabet: f1, maxPods: 4, configs: configs(plansAll, replAll, "nil")},
+			{name: "F2-owners", alphabet: f2, maxPods: 3, configs: configs(plansFew, replFew, "nil")},
+			{name: "F3-unordered", alphabet: f3, maxPods: 4, configs: configs(plansFilter, replAll, "unordered")},
+			{name: "F4-ordered", alphabet: f4, maxPods: 4, ordered: true, configs: configs(plansFilter, replAll, "ordered")},
+		}
+	}
+	return []family{
+		{name: "F1-labels", alphabet: f1, maxPods: 5, configs: configs(plansAll, replAll, "nil")},
+		{name: "F1b-all-prelabels", alphabet: f1b, maxPods: 3, configs: configs(plansAll, replAll, "nil")},
 		{name: "F2-owners", alphabet: f2, maxPods: 3, configs: configs(plansFew, replFew, "nil")},
-		{name: "F3-unordered", alphabet: f3, maxPods: 4, configs: configs(plansAll, replAll, "unordered")},
-		{name: "F4-ordered", alphabet: f4, maxPods: 4, ordered: true, configs: configs(plansAll, replAll, "ordered")},
+		{name: "F3-unordered", alphabet: f3, maxPods: 5, configs: configs(plansFilter, replAll, "unordered")},
+		{name: "F4-ordered", alphabet: f4, maxPods: 5, ordered: true, configs: configs(plansFilter, replAll, "ordered")},
 	}
-	if thorough {
-		fs[0].maxPods = 5
-		fs[1].maxPods = 4
-		fs[2].maxPods = 5
-		fs[3].maxPods = 5
-	}
-	return fs
 }
 
 // podSets lists index tuples over an alphabet of size k: all multisets (non-decreasing tuples) or all sequences of
@@ -894,6 +980,34 @@ type hit struct {
 	n             int
 }
 
+// recorder keeps, per signature, the witness that comes first in enumeration order and the number of occurrences.
+type recorder struct {
+	mu   sync.Mutex
+	hits map[string]*hit
+}
+
+func (rc *recorder) add(fam, set, cfg int, c Case, verdicts []verdict, note string) {
+	if len(verdicts) == 0 {
+		return
+	}
+	rc.mu.Lock()
+	defer rc.mu.Unlock()
+	for _, v := range verdicts {
+		h := &hit{fam: fam, set: set, cfg: cfg, detail: v.Detail + note, c: c, n: 1}
+		old, ok := rc.hits[v.Sig]
+		if !ok {
+			rc.hits[v.Sig] = h
+			continue
+		}
+		if less(h, old) {
+			h.n = old.n + 1
+			rc.hits[v.Sig] = h
+		} else {
+			old.n++
+		}
+	}
+}
+
 func less(a, b *hit) bool {
 	if a.fam != b.fam {
 		return a.fam < b.fam
@@ -905,15 +1019,16 @@ func less(a, b *hit) bool {
 }
 
 func Run(r *lib.Report) {
-	r.Rule = "union of four families, each the full product (pod multisets up to the size bound, or pod sequences for the ordinal-sensitive ordered filter) x (plan x replicas x every current batch of the plan): " +
+	r.Rule = "union of four input families, each the full product (pod multisets up to the size bound, or pod sequences for the ordinal-sensitive ordered filter) x (plan x replicas x every current batch of the plan): " +
 		"F1 live new-revision pods carrying every (rollout-id, batch-id) pre-label incl. \"0\",\"-1\",\"99\",\"x\",absent,foreign next to old-revision/terminating pods; " +
 		"F2 every owner/revision class (CloneSet new/old/none, ReplicaSet new/old/already-hashed/missing) x live/terminating x pre-label; " +
-		"F3 rollback-in-batches with the unordered filter (no-need-update label); F4 with the ordered filter (ordinals). " +
+		"F3 rollback-in-batches with the unordered filter (no-need-update label); F4 with the ordered filter (ordinals); " +
+		"plus F5 reachable release histories: every plan x replicas x set of pods already on the new revision x filter x update order, driven batch by batch (labelling pass, workload moves pods to the new revision up to the batch target, labelling pass), every pass judged like a case of F1-F4. " +
 		"Each case: real PatchPodBatchLabel on a fake store, store read back, second pass on the re-listed pods, real IsBatchReady (=batchLabelSatisfied) before and after. " +
 		"non-trivial = the first pass wrote to the store."
 	r.Assumptions = []string{
 		"currentBatch < len(plan.batches) and len(batches) >= 1: every caller indexes Batches[currentBatch] in CalculateBatchContext before the patcher is reached.",
-		"BatchContext fields are derived as partition-style CloneSet/StatefulSet CalculateBatchContext + countAndUpdateNoNeedUpdateReplicas do (using the real control.CalculateBatchReplicas and util.IsConsistentWithRevision); FilterFunc is set iff noNeedUpdateReplicas != nil.",
+		"BatchContext fields (planned/desired replicas, partition, no-need-update count, filter) are derived as partition-style CloneSet/StatefulSet CalculateBatchContext + countAndUpdateNoNeedUpdateReplicas do; before enumerating, the derivation is compared with the REAL cloneset/statefulset CalculateBatchContext for every (plan, replicas, batch, no-need-update count) of the domain (harness error on any difference); FilterFunc is set iff noNeedUpdateReplicas != nil.",
 		"'pods batch i adds under the plan' = planned(i) - planned(i-1), planned = integer or percentage rounded up, clamped to [0, replicas], malformed = 0 (independent re-computation), for every batch of the plan (not only the released ones).",
 		"counts per (rollout-id, batch i) are taken over live new-revision pods: the statement's last sentence says stale labels on other pods do not count towards a batch, and a terminating pod's replacement must be labelled.",
 		"'new revision' is fixed by construction of the pod (its CloneSet revision label, or the template of the ReplicaSet that owns it), not by calling the code under test.",
@@ -921,16 +1036,31 @@ func Run(r *lib.Report) {
 		"second pass = the pods as stored after the first pass with the context re-derived from them (what the next reconcile sees once the cache caught up); it must issue no write at all.",
 		"batchLabelSatisfied (reached through IsBatchReady with the replica gates open) must not say 'satisfied' when fewer than PlannedUpdatedReplicas live new-revision pods carry the rollout-id with a batch-id naming a batch of the plan; pods labelled for a valid but not yet released batch are given the benefit of the doubt.",
 		"pods are an unordered multiset for the nil and unordered filters (list order = canonical order); for the ordered filter every assignment of pod types to ordinals is enumerated.",
+		"F5 workload model: between two passes of a batch the workload controller moves pods to the new revision until the batch's desired count is met (ordered: every ordinal >= desiredPartition; unordered: old pods by ascending or descending ordinal); an updated pod is a recreated pod and carries no rollout labels; pods are not deleted or scaled.",
 		"terminating pods carry a finalizer so that the fake store keeps them when patched (it would otherwise delete them and hide a wrongly labelled terminating pod).",
 	}
 	r.TrustedBase = []string{"controller-runtime v0.14.6 fake client (strategic-merge patch of labels)", "control.CalculateBatchReplicas / util.IsConsistentWithRevision for deriving the context (their own correctness belongs to C01)"}
 
 	fams := families(r.Thorough())
+	msg, comparisons := selfCheckContext(fams)
+	if msg != "" {
+		fmt.Println("HARNESS-ERROR C12 context derivation differs from the real CalculateBatchContext: " + msg)
+		os.Exit(2)
+	}
+	r.Extra["context_selfcheck_comparisons_with_real_CalculateBatchContext"] = comparisons
 	var mu sync.Mutex
-	hits := map[string]*hit{}
+	rec := &recorder{hits: map[string]*hit{}}
+	hits := rec.hits
 	famStats := map[string]interface{}{}
+	only := os.Getenv("VERIF_C12_ONLY") // development aid: restrict to one family (the run is then marked non-exhaustive)
+	if only != "" {
+		r.NotExhaustive("VERIF_C12_ONLY=" + only + " restricts the run to one family")
+	}
 	for fi := range fams {
 		f := fams[fi]
+		if only != "" && !strings.HasPrefix(f.name, only) {
+			continue
+		}
 		if len(f.alphabet) > 255 {
 			panic("c12: alphabet too large")
 		}
@@ -942,34 +1072,19 @@ func Run(r *lib.Report) {
 			for i, t := range sets[si] {
 				pods[i] = f.alphabet[t]
 			}
+			var w *world
 			for ci, cf := range f.configs {
 				c := Case{Family: f.name, Plan: cf.plan, Replicas: cf.replicas, CurrentBatch: cf.cb, Filter: cf.filter, Pods: pods}
 				var res result
-				if p := lib.Catch(func() { res = runCase(c, nil) }); p != nil {
+				if p := lib.Catch(func() { res, w = runCase(c, nil, w) }); p != nil {
+					w = nil
 					res.verdicts = append(res.verdicts, verdict{"C12/harness/crash", "the check itself panicked: " + p.Value + "\n" + p.Stack})
 				}
 				r.Outcome(f.name + "/" + res.outcome)
 				if res.writes1 > 0 {
 					r.Nontrivial(fmt.Sprintf("%d|%d|%d", fi, si, ci))
 				}
-				if len(res.verdicts) > 0 {
-					mu.Lock()
-					for _, v := range res.verdicts {
-						h := &hit{fam: fi, set: si, cfg: ci, detail: v.Detail, c: c, n: 1}
-						old, ok := hits[v.Sig]
-						if !ok {
-							hits[v.Sig] = h
-							continue
-						}
-						if less(h, old) {
-							h.n = old.n + 1
-							hits[v.Sig] = h
-						} else {
-							old.n++
-						}
-					}
-					mu.Unlock()
-				}
+				rec.add(fi, si, ci, c, res.verdicts, "")
 				if res.writes1 > 1 && len(pods) >= 3 && cf.cb > 0 {
 					mu.Lock()
 					if !sampled {
@@ -981,6 +1096,9 @@ func Run(r *lib.Report) {
 			}
 			r.AddEval(int64(len(f.configs)))
 		})
+	}
+	if only == "" || strings.HasPrefix("F5-histories", only) {
+		famStats["F5-histories"] = runHistories(r, rec, len(fams))
 	}
 	r.Extra["families"] = famStats
 	r.Extra["update_revision"] = updateRevision
@@ -1021,7 +1139,7 @@ func Replay(r *lib.Report, raw json.RawMessage) {
 		os.Exit(2)
 	}
 	var res result
-	if p := lib.Catch(func() { res = runCase(c, os.Stdout) }); p != nil {
+	if p := lib.Catch(func() { res, _ = runCase(c, os.Stdout, nil) }); p != nil {
 		res.verdicts = append(res.verdicts, verdict{"C12/harness/crash", "the check itself panicked: " + p.Value + "\n" + p.Stack})
 	}
 	r.AddEval(1)
